@@ -69,5 +69,6 @@ class EFLRSetsDict(defaultdict):
     def get_all_items_for_set_type(self, eflr_set_type: type[EFLRSet]) -> Generator[AnyEFLRItem, None, None]:
         """Retrieve all EFLRItem instances registered for all instances of given EFLRSet subclass."""
 
-        for value in self[eflr_set_type].values():
+        # (a look-up: it must not create an entry for the set type - the order of the entries is the order of the sets in the file)
+        for value in self.get(eflr_set_type, {}).values():
             yield from value.get_all_eflr_items()
